@@ -1,5 +1,5 @@
 \* emission, heterogeneous assemblies of 3 blocks, every first-block layout: edges out of the initial states and their successors
-CONSTANTS K = 7  H = 3  NB = 3  Layouts = {"p1", "p7", "p19", "singles", "mixed", "nogrid"}  TieDi = TRUE  MaxLevel = 3
+CONSTANTS K = 7  H = 3  NB = 3  Layouts = {"p1", "p7", "p19", "singles", "mixed", "nogrid", "prism", "families"}  TieDi = TRUE  MaxLevel = 3
 ACTION_CONSTRAINT Emit
 INVARIANT EmitState
 INIT Init
